@@ -373,6 +373,11 @@ def carrier_time(h, payload):
                 needle.encode() in req.resp_body:
             t = req.t_end
             best = t if best is None else min(best, t)
+        # (what the client was actually handed may be a scripted replacement of the answer)
+        content = r.get('content')
+        if needle and isinstance(content, (bytes, bytearray)) and needle.encode() in content:
+            t = req.t_end if req is not None and req.done else r['t']
+            best = t if best is None else min(best, t)
     for w in h.log.ws:
         for t, f in w['recv']:
             if needle and f == needle:
